@@ -4,6 +4,7 @@ import TerwayModel.Driver.Token
 import TerwayModel.Driver.VSwitch
 import TerwayModel.Driver.Bandwidth
 import TerwayModel.Driver.Capacity
+import TerwayModel.Driver.Json
 /-
 `drv`: reads one operation per line (`<model>.<op> arg…`), prints one canonical line per input.
 Malformed or unknown lines print `bad-op` — never a default value.
@@ -23,6 +24,8 @@ def dispatch (st : St) (line : String) : St × String :=
     | ["net", op] => (st, (Net.step op args).getD "bad-op")
     | ["bw", op] => (st, (Bandwidth.step op args).getD "bad-op")
     | ["cap", op] => (st, (Capacity.step op args).getD "bad-op")
+    | ["cfg", op] => (st, (JsonD.step op args).getD "bad-op")
+    | ["cni", op] => (st, (JsonD.chainStep op args).getD "bad-op")
     | ["tok", op] =>
       match Token.step st.tok op args with
       | some (t, o) => ({ st with tok := t }, o)
